@@ -113,6 +113,8 @@ inductive Op where
   | qFromParts | qFromPartsSigned | qParse | qFromStrRadix | qFromStrPrefix | qFromF64
   | qInv | qPow | qSqrCubic | qRounding | qToFloats | qSign | qFmt | qToFloat | qToIntTry
   | qDiv | qAdd | qSub | qMul | qRem | qDivEuclid | qCmp | qDivInt | qNearest | qNextUp | qNextDown | qSimplestIn
+  -- round 5: core::iter::Sum / Product folds and Hash
+  | uSum | iSum | uProduct | iProduct | uHash | iHash | fSum | fProduct | qHash | qToFloatB
   deriving Repr, DecidableEq
 
 def Op.table : List (String × Op) := [
@@ -157,7 +159,9 @@ def Op.table : List (String × Op) := [
   ("q.to_floats", .qToFloats), ("q.sign", .qSign), ("q.fmt", .qFmt), ("q.to_float", .qToFloat),
   ("q.to_int_try", .qToIntTry), ("q.div", .qDiv), ("q.add", .qAdd), ("q.sub", .qSub), ("q.mul", .qMul),
   ("q.rem", .qRem), ("q.div_euclid", .qDivEuclid), ("q.cmp", .qCmp), ("q.div_int", .qDivInt),
-  ("q.nearest", .qNearest), ("q.next_up", .qNextUp), ("q.next_down", .qNextDown), ("q.simplest_in", .qSimplestIn)]
+  ("q.nearest", .qNearest), ("q.next_up", .qNextUp), ("q.next_down", .qNextDown), ("q.simplest_in", .qSimplestIn),
+  ("u.sum", .uSum), ("i.sum", .iSum), ("u.product", .uProduct), ("i.product", .iProduct), ("u.hash", .uHash),
+  ("i.hash", .iHash), ("f.sum", .fSum), ("f.product", .fProduct), ("q.hash", .qHash), ("q.to_float_b", .qToFloatB)]
 
 def Op.ofName (s : String) : Option Op := (Op.table.find? (·.1 == s)).map (·.2)
 
@@ -296,6 +300,22 @@ def allInts : List Arg → Option (List Int)
   | [] => some []
   | .int i :: r => (allInts r).map (i :: ·)
   | _ => none
+
+def allFlts : List Arg → Option (List FArg)
+  | [] => some []
+  | .flt f :: r => (allFlts r).map (f :: ·)
+  | _ => none
+
+/-- operand lists of `f.sum` / `f.product`: non-empty, every operand canonical, one base and rounding mode -/
+def fListOk : List FArg → Bool
+  | [] => false
+  | a :: r => a.canonical ∧ r.all (fun b => b.canonical ∧ sameKind a b)
+
+/-- does `1/d` have a finite expansion in base `b`: strip the factors `d` shares with `b` until none is left -/
+def terminatesInAux (b : Nat) : Nat → Nat → Bool
+  | 0, d => d = 1
+  | fuel + 1, d => if Nat.gcd d b ≤ 1 then d = 1 else terminatesInAux b fuel (d / Nat.gcd d b)
+def terminatesIn (b d : Nat) : Bool := terminatesInAux b (Nat.log2 d + 1) d
 
 /-- `verdict W op args`: `none` = the argument list is not one this op takes (driver prints `bad-op`) -/
 def verdict (W : Nat) : Op → List Arg → Option Verdict
@@ -471,7 +491,9 @@ def verdict (W : Nat) : Op → List Arg → Option Verdict
   -- (D1) ulp: "Panics if the precision of the number is 0 (unlimited)."
   | .fUlp, [.flt a] =>
       if ¬ a.canonical then none else if ¬ a.moderate then some .unspecified
-      else some (firstOf [(a.prec = 0, .unlimitedPrecision)])
+      -- (D3) the unit in the last place is B^(exp + digits − precision): an exponent below isize::MIN underflows
+      else some (firstOf [(a.prec = 0, .unlimitedPrecision),
+                          (¬ a.isInf ∧ a.exp + (a.digits : Int) - (a.prec : Int) < isizeMin, .exponentOverflow)])
   -- conversions to f32/f64: "The infinities are converted as it is"; lossy conversions report the rounding
   | .fToF32, [.flt a] | .fToF64, [.flt a] | .fNegAbs, [.flt a] | .fToIntTry, [.flt a]
   | .fToRatio, [.flt a] =>
@@ -561,7 +583,17 @@ def verdict (W : Nat) : Op → List Arg → Option Verdict
   -- to_float with unlimited precision: the quotient is in general not representable ("inexact results at
   -- unlimited precision")
   | .qToFloat, [.int _, .int d, .kind _, .dec p] =>
-      if d ≤ 0 ∨ p < 0 then none else some (firstOf [(p = 0, .unlimitedPrecision)])
+      if d ≤ 0 ∨ p < 0 then none
+      else if p > 2 ^ 20 then some .unspecified       -- huge precisions: one base per call, `q.to_float_b`
+      else some (firstOf [(p = 0, .unlimitedPrecision)])
+  -- to_float at any precision, one base: a quotient that terminates in base B is returned exactly whatever the
+  -- precision (it has few digits); otherwise the result has `p` digits = between p·⌊log2 B⌋ and p·⌈log2 B⌉ bits (D4)
+  | .qToFloatB, [.int n, .int d, .kind _, .dec p, .dec b] =>
+      if d ≤ 0 ∨ p < 0 ∨ ¬ (b = 2 ∨ b = 10) then none
+      else if p = 0 then some (.panics .unlimitedPrecision)
+      else if n = 0 ∨ p ≤ 2 ^ 20 then some .returns
+      else if terminatesIn b.toNat (d.natAbs / Nat.gcd n.natAbs d.natAbs) then some .returns
+      else some (allocRange W (p.toNat * Nat.log2 b.toNat) (p.toNat * FArg.log2Ceil b.toNat))
   | .qDiv, [.int _, .int d, .kind _, .int n2, .int d2] | .qRem, [.int _, .int d, .kind _, .int n2, .int d2]
   | .qDivEuclid, [.int _, .int d, .kind _, .int n2, .int d2] =>
       if d ≤ 0 ∨ d2 ≤ 0 then none else some (divZero n2)
@@ -573,6 +605,40 @@ def verdict (W : Nat) : Op → List Arg → Option Verdict
   -- nearest / next_up / next_down: a zero limit is a zero denominator
   | .qNearest, [.int _, .int d, .kind _, .int l] | .qNextUp, [.int _, .int d, .kind _, .int l]
   | .qNextDown, [.int _, .int d, .kind _, .int l] => if d ≤ 0 ∨ l < 0 then none else some (divZero l)
+  -- ---- round 5.  core::iter::Sum / Product (integer/src/iter.rs, float/src/iter.rs): no `# Panics`; a fold with the
+  --      operator from ZERO / ONE, so the operator's documentation applies to every step.  Hash: derived / no `# Panics`.
+  | .uSum, cs =>
+      match allInts cs with
+      | none => none
+      | some l => if l.any (· < 0) then none else some .returns
+  | .iSum, cs => (allInts cs).map (fun _ => .returns)
+  | .uProduct, cs =>
+      match allInts cs with
+      | none => none
+      | some l =>
+        if l.any (· < 0) then none
+        else some (if (l.map (fun c => bitLen c.natAbs)).sum ≤ memLoBits then .returns else .unspecified)
+  | .iProduct, cs =>
+      (allInts cs).map (fun l => if (l.map (fun c => bitLen c.natAbs)).sum ≤ memLoBits then .returns else .unspecified)
+  | .uHash, [.int x] => if x < 0 then none else some .returns
+  | .iHash, [.int _] => some .returns
+  | .qHash, [.int _, .int d, .kind c] => if d ≤ 0 ∨ c ≠ 'R' then none else some .returns
+  -- (D3) every step is an addition / multiplication: an infinite operand anywhere in the list panics; exact sums at
+  --      unlimited precision are kept to small exponents, products to short lists of small exponents (no overflow)
+  | .fSum, as =>
+      match allFlts as with
+      | none => none
+      | some l =>
+        if ¬ fListOk l then none
+        else if ¬ l.all (fun a => a.isInf ∨ (a.exp.natAbs ≤ 2 ^ 20)) then some .unspecified
+        else some (firstOf [(l.any (·.isInf), .infinite)])
+  | .fProduct, as =>
+      match allFlts as with
+      | none => none
+      | some l =>
+        if ¬ fListOk l then none
+        else if ¬ (l.length ≤ 2 ^ 10 ∧ l.all (fun a => a.isInf ∨ (a.exp.natAbs ≤ 2 ^ 40))) then some .unspecified
+        else some (firstOf [(l.any (·.isInf), .infinite)])
   | _, _ => none
 
 /-- `y`/`n` for the conversions to u8 u16 u32 u64 u128 usize i8 i16 i32 i64 i128 isize and UBig (64-bit target):
